@@ -385,6 +385,19 @@ func (ma *mergeAnalysis) ruleR20(c *Ctx) {
 				continue
 			}
 			nOld++
+			// the same conjunction written as a conditional clear: `if !u.IgnoreFailure { acc.IgnoreFailure = false }`
+			if isConstBool(st.Val, false) {
+				cds := controls(st.Block())
+				okC := false
+				if len(cds) > 0 {
+					if n := normCond(cds[0]); !n.Pol && isUpdFlag(n.V) {
+						okC = true
+					}
+				}
+				c.ok("R20", "flag/conjunction", st.Pos(), okC, "an existing accumulator's flag becomes old && update's (cleared exactly when the update's flag is not set)",
+					"the accumulator's flag is cleared under a condition other than the update's flag being unset")
+				continue
+			}
 			// conjunction: sources ⊆ {false, update's flag, old flag}; contains the update's flag; never constant true
 			srcs := valueSources(st.Val, st, 0)
 			hasUpd, bad := false, ""
